@@ -4,6 +4,7 @@ import (
 	"encoding/json"
 	"fmt"
 	"math/big"
+	"os"
 	"runtime"
 	"strings"
 	"sync"
@@ -76,11 +77,26 @@ type meter struct {
 	rows []meterRow
 	cs   *countState
 	ms   runtime.MemStats
+	// keep, if set, restricts the rows to the top-depth instructions it selects
+	// plus the step following each of them (long loops: measuring costs a
+	// stop-the-world per row)
+	keep     func(op byte) bool
+	lastKept bool
 }
 
 func newMeter() *meter { return &meter{rows: make([]meterRow, 0, 4096)} }
 
 func (m *meter) step(pc uint64, op byte, gas, cost uint64, depth int, err error) {
+	if m.keep != nil {
+		k := depth == 1 && m.keep(op)
+		if !k && !m.lastKept {
+			if m.cs != nil {
+				m.cs.stepN = m.cs.n
+			}
+			return
+		}
+		m.lastKept = k
+	}
 	runtime.ReadMemStats(&m.ms)
 	var reads uint64
 	if m.cs != nil {
@@ -268,12 +284,22 @@ func c20Calibrate() c20Bounds {
 
 type c20Extra struct {
 	Note string `json:"note"`
+	// history family: the SAME flat-fee instruction executed N times while the
+	// structure it adds to grows
+	HistOp byte `json:"histOp,omitempty"`
+	HistN  int  `json:"histN,omitempty"`
 }
 
 func checkC20(sc *Scenario, st *Stats) *Violation {
 	b := c20Calibrate()
 	st.SetExtra("calibration_on_upstream", b)
 	m := newMeter()
+	var ex0 c20Extra
+	_ = json.Unmarshal(sc.Extra, &ex0)
+	if ex0.HistN > 0 {
+		m.rows = make([]meterRow, 0, 2*ex0.HistN+64)
+		m.keep = func(op byte) bool { return op == ex0.HistOp }
+	}
 	art := RunArtela(sc, ArtelaOpts{CustomTracer: meterA{m}, NoRoot: true, WrapState: func(s avm.StateDB) avm.StateDB {
 		m.cs = &countState{StateDB: s.(*state.StateDB)}
 		return m.cs
@@ -298,6 +324,12 @@ func checkC20(sc *Scenario, st *Stats) *Violation {
 		if float64(w.Reads) > b.ReadsPerGas*float64(w.Consumed)+b.ReadsConst {
 			return violf(fmt.Sprintf("reads/op=%02x", w.Op), "%s: instruction %02x at pc %d performed %d state reads for %d gas (bound %.3f reads/gas + %.0f)", ex.Note, w.Op, w.PC, w.Reads, w.Consumed, b.ReadsPerGas, b.ReadsConst)
 		}
+		if ex.HistN > 0 && w.Op == ex.HistOp {
+			// amortised below: a container doubling once in a while is how the protocol's
+			// own structures (dirty-storage maps, journals) grow as well
+			st.Label(fmt.Sprintf("measured-op:%02x", w.Op))
+			continue
+		}
 		if float64(w.Alloc) > b.BytesPerGas*float64(w.Consumed)+b.BytesConst {
 			return violf(fmt.Sprintf("alloc/op=%02x", w.Op), "%s: instruction %02x at pc %d allocated %d bytes for %d gas (bound %.1f bytes/gas + %.0f)", ex.Note, w.Op, w.PC, w.Alloc, w.Consumed, b.BytesPerGas, b.BytesConst)
 		}
@@ -308,6 +340,48 @@ func checkC20(sc *Scenario, st *Stats) *Violation {
 	}
 	if strings.Contains(ex.Note, "2^20") || strings.Contains(ex.Note, "big") {
 		big20 = true
+	}
+	if ex.HistN > 0 {
+		// Growth law. The instruction pays the same flat fee every time, so the work of
+		// one execution may not grow with the number of executions before it: any
+		// growth without bound exceeds every fixed multiple of the fee. Amortised
+		// container growth (a map or slice doubling once while its size doubles) is
+		// the same in both windows, each of which spans exactly one doubling of the size.
+		var ws []workRow
+		for _, w := range m.work() {
+			if w.Op == ex.HistOp {
+				ws = append(ws, w)
+			}
+		}
+		if len(ws) < ex.HistN {
+			st.Label("history:incomplete")
+		} else {
+			mean := func(lo, hi int) (bytes, reads float64) {
+				for _, w := range ws[lo:hi] {
+					bytes += float64(w.Alloc)
+					reads += float64(w.Reads)
+				}
+				n := float64(hi - lo)
+				return bytes / n, reads / n
+			}
+			n := len(ws)
+			aB, aR := mean(n/8, n/4)
+			bB, bR := mean(n/2, n)
+			st.Label(fmt.Sprintf("history:op=%02x", ex.HistOp))
+			if os.Getenv("C20_DEBUG") != "" {
+				fmt.Printf("C20H op=%02x n=%d meanA=%.0f meanB=%.0f readsA=%.1f readsB=%.1f\n", ex.HistOp, n, aB, bB, aR, bR)
+			}
+			if gas := float64(ws[n-1].Consumed); bB > b.BytesPerGas*gas+b.BytesConst {
+				return violf(fmt.Sprintf("alloc/op=%02x", ex.HistOp), "%s: instruction %02x allocated %.0f bytes per execution (mean over executions %d..%d) for %.0f gas (bound %.1f bytes/gas + %.0f)", ex.Note, ex.HistOp, bB, n/2, n, gas, b.BytesPerGas, b.BytesConst)
+			}
+			if bB > 2*aB+512 {
+				return violf(fmt.Sprintf("growth-alloc/op=%02x", ex.HistOp), "%s: instruction %02x pays the same %d gas every time, but allocated %.0f bytes per execution over executions %d..%d against %.0f bytes over executions %d..%d: its work grows with the history it built", ex.Note, ex.HistOp, ws[n-1].Consumed, bB, n/2, n, aB, n/8, n/4)
+			}
+			if bR > 2*aR+2 {
+				return violf(fmt.Sprintf("growth-reads/op=%02x", ex.HistOp), "%s: instruction %02x pays the same %d gas every time, but made %.1f state reads per execution over executions %d..%d against %.1f over executions %d..%d", ex.Note, ex.HistOp, ws[n-1].Consumed, bR, n/2, n, aR, n/8, n/4)
+			}
+			big20 = n >= 1000
+		}
 	}
 	nontrivial := big20 || multi
 	// compact sample (the scenario itself carries a 20 KB dummy contract)
@@ -321,7 +395,9 @@ func genC20(t *rapid.T) *Scenario {
 	note := ""
 	var sc *Scenario
 	storage := map[common.Hash]common.Hash{}
-	switch r := uniform(t, 0, 11, "family"); {
+	switch r := uniform(t, 0, 12, "family"); {
+	case r == 12:
+		return genC20History(t, fork)
 	case r >= 10:
 		// a standard precompile with a hostile input: length header words of every size
 		pnum := uint64(uniform(t, 1, 9, "stdp"))
@@ -439,6 +515,50 @@ func genC20(t *rapid.T) *Scenario {
 		}, hostileStorageSmall(t), rapid.SliceOfN(rapid.Byte(), 0, 64).Draw(t, "cd"))
 	}
 	ex := c20Extra{Note: note}
+	sc.Extra, _ = json.Marshal(ex)
+	return sc
+}
+
+// genC20History: a loop executing one key-registering / journaling instruction N
+// times, every time on a NEW location under the same parent (or a new top-level
+// name, or a new change of the same key), so that the tracer's structures grow.
+func genC20History(t *rapid.T, fork string) *Scenario {
+	n := pickInt(t, "histn", 64, 1000, 4000, 12000, 20000)
+	op := []byte{IVVVJNAL, IVVRJNAL, IRVVJNAL, IRVRJNAL, VSVJNAL, RSVJNAL, VVJNAL}[uniform(t, 0, 6, "histop")]
+	const pSlot, pType, kType, base = 0x1002, 0x5002, 0x6000, 0x100000
+	sc := c20Probe(fork, func(a *Asm) {
+		a.Push(1).Push(0x800).Op(MSTORE)
+		a.Push(0x5002).Push(0).Push(pSlot).Push(0x20).Op(VSVJNAL) // parent, name ""
+		a.Push(32).Push(jMemName).Op(MSTORE)                      // length word of the name / reference index key
+		top, end := a.NewLabel(), a.NewLabel()
+		a.Push(n)
+		a.Label(top)
+		a.Op(DUP1, ISZERO).Jumpi(end)
+		// the counter is on top: use it as index key, name and slot offset
+		a.Op(DUP1).Push(jMemName + 32).Op(MSTORE)
+		switch op {
+		case IVVVJNAL: // (base, slot, keyValue, offset, typeId, parentTypeId)
+			a.Push(pType).Push(kType).Push(0).Op(DUP1+3, DUP1+4).Push(base).Op(ADD).Push(pSlot).Op(IVVVJNAL)
+		case IVVRJNAL: // (base, slot, keyValue, typeId, parentTypeId)
+			a.Push(pType).Push(kType).Op(DUP1+2, DUP1+3).Push(base).Op(ADD).Push(pSlot).Op(IVVRJNAL)
+		case IRVVJNAL: // (base, slot, keyPtr, offset, typeId, parentTypeId)
+			a.Push(pType).Push(kType).Push(0).Push(jMemName).Op(DUP1 + 4).Push(base).Op(ADD).Push(pSlot).Op(IRVVJNAL)
+		case IRVRJNAL: // (base, slot, keyPtr, typeId, parentTypeId)
+			a.Push(pType).Push(kType).Push(jMemName).Op(DUP1 + 3).Push(base).Op(ADD).Push(pSlot).Op(IRVRJNAL)
+		case VSVJNAL: // (namePtr, slot, offset, typeId)
+			a.Push(kType).Push(0).Op(DUP1 + 2).Push(base).Op(ADD).Push(jMemName).Op(VSVJNAL)
+		case RSVJNAL: // (namePtr, slot, typeId)
+			a.Push(kType).Op(DUP1 + 1).Push(base).Op(ADD).Push(jMemName).Op(RSVJNAL)
+		default: // a new value of the parent's slot, journaled: (slot, offset, size, typeId)
+			a.Op(DUP1).Push(pSlot).Op(SSTORE)
+			a.Push(pType).Push(32).Push(0).Push(pSlot).Op(VVJNAL)
+		}
+		a.Push(1).Op(SWAP1, SUB).Jump(top)
+		a.Label(end)
+		a.Op(POP)
+	}, nil, nil)
+	sc.Invs[0].Gas = 400_000_000
+	ex := c20Extra{Note: fmt.Sprintf("history op=%02x n=%d", op, n), HistOp: op, HistN: n}
 	sc.Extra, _ = json.Marshal(ex)
 	return sc
 }
